@@ -50,7 +50,7 @@ def run(ctx):
         return
     gens = {"gen": dict(module="Blake2Xof_Gen", cfg_text=gen_cfg(3, ctx.thorough), workers=ctx.pick(2, 4))}
     if ctx.thorough:
-        gens["sim"] = dict(module="Blake2Xof_Gen", cfg_text=gen_cfg(8, True), workers=1, simulate=4000, depth=9)
+        gens["sim"] = dict(module="Blake2Xof_Gen", cfg_text=gen_cfg(8, True), workers=1, simulate=1000, depth=9)
     jobs = {}
     jobs.update(mc); jobs.update(vec); jobs.update(gens)
     res = par_tlc(ctx, jobs, timeout=2400)
